@@ -174,6 +174,7 @@ fn spec_strategy() -> BoxedStrategy<ReqSpec> {
                 default_operation: a,
                 error_option: b,
                 test_option: c,
+                order: 0,
             }),
         2 => (xml_fragment(), 0usize..3).prop_map(|(c, d)| ReqSpec::CopyConfig {
             target: Some(Ds::ALL[d]),
